@@ -12,7 +12,7 @@ func lemma_C03_KE(group uint16, data []byte) {
 	x := &KeyExchange{DiffieHellmanGroup: group, KeyExchangeData: data}
 	fm := verifFrameBegin()
 	b, err := x.Marshal()
-	verifFrameEnd(fm, "C20/KE/marshal-writes-nothing-that-existed-before")
+	verifFrameEnd(fm, "C03+C20/KE/marshal-writes-nothing-that-existed-before")
 	verifAssert(err == nil, "C03/KE/marshal-ok")
 	// RFC 7296 3.4: DH group (16 bit), RESERVED (16 bit) = 0, data
 	verifAssert(len(b) == 4+len(data), "C05/KE/length")
@@ -62,7 +62,7 @@ func lemma_C03_Notify(proto uint8, typ uint16, spi, data []byte) {
 	x := &Notification{ProtocolID: proto, NotifyMessageType: typ, SPI: spi, NotificationData: data}
 	fm := verifFrameBegin()
 	b, err := x.Marshal()
-	verifFrameEnd(fm, "C20/Notify/marshal-writes-nothing-that-existed-before")
+	verifFrameEnd(fm, "C03+C20/Notify/marshal-writes-nothing-that-existed-before")
 	verifAssert(err == nil, "C03/Notify/marshal-ok")
 	verifAssert(x.ProtocolID == proto && x.NotifyMessageType == typ && verifBytesEq(x.SPI, spi) && verifBytesEq(x.NotificationData, data), "C20/Notify/marshal-leaves-the-payload-unchanged")
 	verifAssert(len(b) == 4+len(spi)+len(data) && b[0] == proto && int(b[1]) == len(spi) && b[2] == byte(typ>>8) && b[3] == byte(typ), "C05/Notify/header")
